@@ -88,7 +88,13 @@ pub fn composite_lens() -> &'static [usize] {
         v
     })
 }
+/// very long messages for the signing paths ("arbitrarily long"): around 1, 2, 4 MiB and a few odd sizes
+pub const BIG_BASE: usize = 2000;
+pub const BIG_SIGN_LENS: [usize; 12] = [(1 << 20) - 1, 1 << 20, (1 << 20) + 1, (1 << 21) - 1, 1 << 21, (1 << 21) + 7, 1 << 22, (1 << 22) + 1, 172_032, 3 * (1 << 20) + 5, 1_000_003, (1 << 20) - 96];
 pub fn len_of_class(class: usize) -> Option<usize> {
+    if class >= BIG_BASE && class - BIG_BASE < BIG_SIGN_LENS.len() {
+        return Some(BIG_SIGN_LENS[class - BIG_BASE]);
+    }
     if class < LEN_CLASSES.len() {
         Some(LEN_CLASSES[class])
     } else if class >= COMPOSITE_BASE && class - COMPOSITE_BASE < composite_lens().len() {
